@@ -269,7 +269,7 @@ ob("tp.dispatch", "tp/tp.c", ["-DOP_DISPATCH"], ["C04", "C14", "C06"], unwind=14
 ob("tp.life", "tp/tp.c", ["-DOP_LIFE"], ["C08", "C14"], unwind=14, desc="xcm_tp_socket_close/cleanup: control interface destroyed with the same ownership before the transport")
 ob("tp.service", "tp/tp.c", ["-DOP_SERVICE"], ["C11"], unwind=14, desc="xcm.service accepts exactly 'any' and the actual service for all 11-char strings; xcm.blocking = xcm_set_blocking")
 for (g, sfn, t) in extract_attrs("libxcm/tp/common/xcm_tp.c"):
-    ob("tp.getter." + g, "tp/tp.c", ["-DOP_GETTER", "-DGETTER=" + g, "-DGSIZE=%d" % GSIZE.get(t, 0)], ["C10"] + (["C17"] if "_bytes" in g or "_msgs" in g else []), unwind=20,
+    ob("tp.getter." + g, "tp/tp.c", ["-DOP_GETTER", "-DGETTER=" + g, "-DGSIZE=%d" % GSIZE.get(t, 0)] + (["-DMSG_CONN_ONLY"] if ("max_msg" in g or "_msgs" in g) else []), ["C10"] + (["C17"] if "_bytes" in g or "_msgs" in g else []), unwind=20,
        desc="real common getter %s (%s), any socket kind, mock transport strings of 0..6 chars (or NULL), every capacity" % (g, t))
 
 # --------------------------------------------------------------------------
@@ -317,3 +317,22 @@ PROPERTY_META["C13"]["assumptions"] = PROPERTY_META["C13"].get("assumptions", []
     "setsockopt/bind failures only in the 2-address obligation (recursion with three call sites is exponential for CBMC)",
     "timer_mgr over a clock stub (any non-negative time) and a timerfd stub; the double->timespec conversion (libm) is outside the claim",
     "real-time bounds are reduced to 'a live timer of the configured length guards every pending attempt'"]
+
+# --------------------------------------------------------------------------
+# C14: ctl.c over attribute-layer / kernel / xpoll mocks, protocol constants scaled
+# --------------------------------------------------------------------------
+CTL_SC = [("common/ctl_proto.h", "CTL_PROTO_MAX_ATTRS", 3), ("common/ctl_proto.h", "CTL_ATTR_VALUE_MAX", 8), ("common/xcm_attr_limits.h", "XCM_ATTR_NAME_MAX", 8)]
+for op, props, d in (("REQ", ["C14"], "client_receive: the request datagram is ARBITRARY bytes (unterminated name, any type, any size), the attribute layer returns anything it may (more attributes than fit, names and values longer than their fields, tls.key set): no overflow, no abort, reply type/length/bytes, tls.key in no byte of the reply"),
+                     ("PROCESS", ["C14", "C08", "C05", "C16"], "ctl_process with no session open: errno preserved, at most one accept (rounds with sessions: ctl.client/ctl.remove/ctl.accept; the recursion of ctl_process over an array of sessions is out of CBMC's reach: 1.3M SSA steps, > 12 GB): <= 2 sessions, listen socket masked at the limit, errno preserved, only session descriptors closed"),
+                     ("ACCEPT", ["C14", "C05", "C16"], "accept_client with 0..1 sessions into a slot holding stale data: non-blocking session, no reply pending, listen socket masked at the limit"),
+                     ("CLIENT", ["C14", "C05"], "process_client on one session: pending reply sent whole / kept on EAGAIN / session ended on error"),
+                     ("REMOVE", ["C14", "C08"], "remove_client from 1..2 sessions: the survivor keeps descriptor and pending reply, listen socket unmasked"),
+                     ("DESTROY", ["C08", "C14"], "ctl_destroy as owner (close) and as non-owner (cleanup in a forked child)"),
+                     ("CREATE", ["C08", "C14", "C05"], "ctl_create with stat/socket/bind/listen failing at will: silent, nothing left behind")):
+    ob("ctl." + op.lower(), "ctl/ctl_h.c", ["-DOP_" + op], props, unwind=5, scaled=CTL_SC,
+       unwindset=["build_ctl.0:130", "build_ctl.1:130", "recv.0:130", "contains_secret.0:130", "xcm_attr_get_all.0:18", "xcm_attr_get_all.1:18", "xcm_attr_get_all.2:18", "xcm_attr_get.0:10", "xcm_attr_get.1:10",
+                  "main.0:10", "main.1:10", "main.2:10", "main.3:10", "strlen.0:14", "strcpy.0:14", "strcmp.0:10", "memcmp.0:10", "memcpy.0:18"], desc=d + " [scaled twin: CTL_PROTO_MAX_ATTRS 64->3, CTL_ATTR_VALUE_MAX 512->8, XCM_ATTR_NAME_MAX 64->8]")
+PROPERTY_META["C14"] = {"assumptions": ["ctl.c over mocks of xcm_attr_get/xcm_attr_get_all that may return anything the attribute layer can (C10 decides what that layer guarantees)",
+                                        "protocol constants scaled (see obligation descriptions): the claim is for the same source text with smaller tables; the driver checks each substitution hits exactly one #define",
+                                        "kernel stubs: recv returns a full-size datagram of arbitrary bytes, a short one, 0, EAGAIN or an error; send all / EAGAIN / EPIPE"],
+                        "trusted_base": [], "bounds": "<= 2 sessions, one event per step, scaled tables", "outside": "the xcmctl tool's own parsing; real table sizes"}
